@@ -391,7 +391,7 @@ fn run_c11(ctx: &mut Ctx) {
         // slices of 0..=5 elements of every width
         for uty in ALL_UTY {
             for count in 0..=5usize {
-                for rep in 0..tier.pick(1, 8, 40) {
+                for rep in 0..tier.pick(1, 40, 200) {
                     let vals: Vec<u128> = (0..count)
                         .map(|i| match rep {
                             0 => (i as u128 + 1) & uty.max(),
@@ -462,6 +462,34 @@ fn run_c11(ctx: &mut Ctx) {
                         }
                     }
                 }
+            }
+        }
+    }
+    // seeded random: integers with a random number of significant bits into every type; random vectors into every integer type
+    {
+        let per = tier.pick(100, 3_000_000, 30_000_000) / ctx.nworkers + 1;
+        let mut rng = Rng::derive(ctx.seed, 0x1112, ctx.worker as u64);
+        for i in 0..per {
+            let ty = rng.below(NTYPES);
+            let uty = ALL_UTY[rng.below(6)];
+            if i % 2 == 0 {
+                let sig = rng.below(uty.bits() + 1);
+                let v = if sig == 0 { 0 } else { (rng.u128() & crate::model::mask128(sig)) | (1u128 << (sig - 1)) };
+                judge(ctx, &Case::new("fromuint").with("ty", ty).with("x", uty.make(v).enc()).with("ref", (i / 2 % 2) as u8), "W3-seeded-random");
+            } else {
+                let n = gen::random_len(ty, 300, &mut rng);
+                let mut bits = gen::random_bits(n, &mut rng);
+                // half of the time small enough to fit some integer type
+                if rng.bool() {
+                    let keep = rng.below(uty.bits() + 2);
+                    for (j, b) in bits.iter_mut().enumerate() {
+                        if j >= keep {
+                            *b = false;
+                        }
+                    }
+                }
+                let a = Spec::new(ty, bits, via_for(ty, &mut rng));
+                judge(ctx, &Case::new("touint").with("a", a.enc()).with("uty", uty.name()).with("ref", (i / 2 % 2) as u8), "W3-seeded-random");
             }
         }
     }
